@@ -126,7 +126,9 @@ def describe(rec, exp):
 
 
 def size_of(rec):
-    return len(rec.get("input", [])) + len(rec.get("payload", [])) + len(rec.get("addr", []))
+    # smallest first; among equals the plainest (CONNECT, literal IP address) for a readable report
+    n = len(rec.get("input", [])) + len(rec.get("payload", [])) + (len(rec.get("addr", [])) if rec.get("ev") == "build" else 0)
+    return (n, rec.get("cmd", 1) != 1, rec.get("input", [0] * 5)[4:5] == [0], json.dumps(rec, sort_keys=True))
 
 
 def check(prop, tier, seed, replay):
